@@ -88,42 +88,60 @@ def lexer_tables(repo: Path):
         raise ExtractError("tokens", "enum Token not found")
     tokens = re.findall(r"^\s*([A-Z][A-Za-z]*)\b", m.group(1), re.M)
 
-    def sym_table(fname, arity):
-        body = fn_body(src, fname, fname)
-        rows = []
+    # The tables are located by SHAPE, not by the name of the function they sit in (functions get renamed and moved):
+    # a symbol table is a function whose whole body is a `match` from character (tuple) patterns to `Some(Token::…)` with a
+    # `_ => None` default; the keyword table is the `match` from string literals to `Token::…` with an identifier default;
+    # the continuation set is the longest or-pattern of `Token::…` alternatives.
+    fns = [(m.group(1), m.start()) for m in re.finditer(r"\bfn\s+(\w+)\s*[(<]", src)]
+
+    def bodies():
+        for name, _ in fns:
+            try:
+                yield name, fn_body(src, name, name)
+            except ExtractError:
+                continue
+
+    def sym_table(arity, label):
         if arity == 1:
             pat = r"'((?:\\.|[^'\\]))'\s*=>\s*Some\(Token::(\w+)\)"
         else:
             pat = r"\(" + r",\s*".join([r"'((?:\\.|[^'\\]))'"] * arity) + r"\)\s*=>\s*Some\(Token::(\w+)\)"
-        for mm in re.finditer(pat, body):
-            chars = [rust_char(g, fname) for g in mm.groups()[:-1]]
-            rows.append(("".join(chars), mm.group(arity + 1)))
-        arms = body.count("=>")
-        if arms != len(rows) + 1 or not re.search(r"_\s*=>\s*None", body):
-            raise ExtractError(fname, f"{arms} arms but {len(rows)} recognised rows (+1 default expected)")
-        return rows
+        found = []
+        for name, body in bodies():
+            rows = []
+            for mm in re.finditer(pat, body):
+                chars = [rust_char(g, label) for g in mm.groups()[:-1]]
+                rows.append(("".join(chars), mm.group(arity + 1)))
+            arms = body.count("=>")
+            if rows and arms == len(rows) + 1 and re.search(r"_\s*=>\s*None", body):
+                found.append((name, rows))
+        if len(found) != 1:
+            raise ExtractError(label, f"expected exactly one {arity}-character symbol table (a function that is one match "
+                                      f"to `Some(Token::…)` with `_ => None`), found {[n for n, _ in found]}")
+        return found[0][1]
 
-    single = sym_table("match_single_symbol_token", 1)
-    double = sym_table("match_double_symbol_token", 2)
-    triple = sym_table("match_triple_symbol_token", 3)
+    single = sym_table(1, "match_single_symbol_token")
+    double = sym_table(2, "match_double_symbol_token")
+    triple = sym_table(3, "match_triple_symbol_token")
 
-    body = fn_body(src, "next_keyword_or_ident", "keywords")
-    kws = re.findall(r'"(\w+)"\s*=>\s*Token::(\w+)\s*,', body)
-    mm = re.search(r"match t \{(.*?)\n        \}", body, re.S)
-    if not mm:
-        raise ExtractError("keywords", "match t { … } not found")
-    arms = mm.group(1).count("=>")
-    if arms != len(kws) + 1 or "_ => Token::Ident(t.to_string())" not in mm.group(1):
-        raise ExtractError("keywords", f"{arms} arms but {len(kws)} keyword rows")
+    kw_tables = []
+    for mm in re.finditer(r"match \w+ \{((?:\s*\"\w+\"\s*=>\s*Token::\w+\s*,)+)\s*_\s*=>\s*Token::Ident\((\w+)\.to_string\(\)\)\s*,?\s*\}", src):
+        kw_tables.append(re.findall(r'"(\w+)"\s*=>\s*Token::(\w+)\s*,', mm.group(1)))
+    if len(kw_tables) != 1:
+        raise ExtractError("keywords", f"expected exactly one keyword match (string literals to Token::… with an identifier "
+                                       f"default), found {len(kw_tables)}")
+    kws = kw_tables[0]
 
-    # continuation set: the or-pattern of the first arm of `match t` inside Iterator::next
-    m = re.search(r"impl Iterator for Lexer.*?if let Some\(t\) = last_token \{\s*match t \{(.*?)=>\s*\{\s*\}", src, re.S)
-    if not m:
-        raise ExtractError("continuation", "suppression match not found")
-    cont = re.findall(r"Token::(\w+)", m.group(1))
-    rest = src[m.end():m.end() + 200]
-    if not re.match(r"\s*,\s*_\s*=>\s*\{\s*return Some\(Ok\(span\)\);", rest):
-        raise ExtractError("continuation", "default arm is not `_ => return Some(Ok(span))`")
+    # continuation set: the longest or-pattern `Token::A | Token::B | …`
+    ors = re.findall(r"(?:Token::\w+(?:\([^)]*\))?\s*\|\s*){9,}Token::\w+(?:\([^)]*\))?", src)
+    if len(ors) != 1:
+        raise ExtractError("continuation", f"expected exactly one long or-pattern of tokens (the terminator-suppression set), found {len(ors)}")
+    cont = re.findall(r"Token::(\w+)", ors[0])
+    tail = src[src.index(ors[0]) + len(ors[0]):][:400]
+    # what the pattern guards: either the original `=> {}` arm with `_ => return Some(Ok(span))`, or a boolean helper
+    if not (re.match(r"\s*=>\s*\{\s*\}\s*,\s*_\s*=>\s*\{\s*return Some\(Ok\(span\)\);", tail)
+            or re.match(r"\s*=>\s*true\s*,\s*_\s*=>\s*false", tail) or re.match(r"\s*\)", tail)):
+        raise ExtractError("continuation", f"the long or-pattern of tokens is not used as the suppression test: {tail[:80]!r}")
     for name in [t for _, t in single + double + triple + kws] + cont:
         if name not in tokens:
             raise ExtractError("tokens", f"Token::{name} used in a table but not declared")
